@@ -145,6 +145,13 @@ impl Gen {
     while modules.len() < n {
       let i = modules.len();
       let name: ModName = match rng.below(4) {
+        // file names an editor has to percent-encode in the document URI
+        // ... or that are no identifiers of the language (such a module cannot be imported)
+        0 if rng.chance(1, 6) => match rng.below(7) {
+          0 => vec!["from".into(), format!("Mod{i}")],
+          1 => vec![format!("snake_case_module_{i}")],
+          _ => vec![format!("{}{i}", rng.pick(&["My Mod", "Caf\u{e9}", "Hash#Tag", "What?"]))],
+        },
         0 => vec![format!("M{i}")],
         1 => vec!["pkg".into(), format!("Mod{i}")],
         2 => vec![rng.pick(MODULE_PARTS_LONG).to_string(), format!("Part{i}")],
